@@ -118,6 +118,7 @@ pub fn run(ctx: &Ctx) {
         if !ctx.want(case) {
             continue;
         }
+        let _g = op_begin("regions-round-trip", case);
         let mut r = Rng::derive(ctx.seed, 0xc05, case);
         let nreg = r.range(1, 8) as usize;
         let huge = i == 0 && ctx.batch == 0 && ctx.opt_u64("huge", 1) == 1;
